@@ -271,9 +271,12 @@ func ArrProps(propContainer map[string]object.PanObject) map[string]object.PanOb
 						fmt.Sprintf("%s cannot be treated as arr", args[0].Repr()))
 				}
 
-				pairs := make([]object.Pair, len(self.Elems))
+				pairs := make([]object.Pair, 0, len(self.Elems))
+				// stored for duplicate key check
+				// (NOTE: hashable keys duplication is checked in NewPanMap)
+				nonHashablePairs := []object.Pair{}
 
-				for i, e := range self.Elems {
+				for _, e := range self.Elems {
 					arr, ok := object.TraceProtoOfArr(e)
 					if !ok {
 						return object.NewValueErr(
@@ -285,10 +288,20 @@ func ArrProps(propContainer map[string]object.PanObject) map[string]object.PanOb
 							fmt.Sprintf(`element %s must have two elements`, arr.Repr()))
 					}
 
-					pairs[i] = object.Pair{
+					pair := object.Pair{
 						Key:   arr.Elems[0],
 						Value: arr.Elems[1],
 					}
+
+					if _, ok := pair.Key.(object.PanScalar); !ok {
+						// stored only if key does not exist (same as map literal)
+						if _, exists := containsKey(
+							pair.Key, nonHashablePairs, propContainer, env); exists {
+							continue
+						}
+						nonHashablePairs = append(nonHashablePairs, pair)
+					}
+					pairs = append(pairs, pair)
 				}
 
 				return object.NewPanMap(pairs...)
